@@ -176,6 +176,58 @@ def wdReadName (ext : Name → Name) (key : Name) : Name :=
   else if key = nUd ∨ key = nDu then key
   else ext key
 
+/-! ### histories on one container: repeated saves, in-place edits, replaced files
+
+  A file object has an identity (`id(obj)`) and a content; `select_bands`, `select_kpoints`, `spin_order_*` and
+  direct edits of `.data` change the content IN PLACE (same identity); `set_file(..., overwrite=True)` puts a new
+  object.  The disk maps an npz path to the content last written there.
+-/
+
+structure FileObj (A : Type) where
+  ident : Nat
+  content : A
+
+structure WState (A : Type) where
+  cont : List (Name × FileObj A)            -- the container `_files`
+  disk : List (Name × A)                    -- path → content (latest first)
+  cache : List (Name × (Name × Nat))        -- only used by the seeded "skip if same object" variant
+
+inductive WOp (A : Type) where
+  | save (seed : Name)                       -- to_npz(seed)
+  | edit (key : Name) (c : A)                -- in-place modification of the file stored under `key`
+  | setFile (key : Name) (o : FileObj A)     -- set_file(key, o, overwrite=True)
+
+/-- `seedname + "." + extension + ".npz"` -/
+def npzPath (ext : Name → Name) (seed key : Name) : Name := seed ++ '.' :: ext key
+
+/-- `WannierData.to_npz(seed)`: every file of the container is written, whatever was written before -/
+def saveTo {A} (ext : Name → Name) (seed : Name) (cont : List (Name × FileObj A)) (disk : List (Name × A)) :
+    List (Name × A) :=
+  cont.foldl (fun d p => (npzPath ext seed p.1, p.2.content) :: d) disk
+
+def setKey {A} (cont : List (Name × FileObj A)) (key : Name) (o : FileObj A) : List (Name × FileObj A) :=
+  if cont.any (fun p => p.1 == key) then cont.map (fun p => if p.1 == key then (p.1, o) else p) else cont ++ [(key, o)]
+
+def wstep {A} (ext : Name → Name) (s : WState A) : WOp A → WState A
+  | .save seed => { s with disk := saveTo ext seed s.cont s.disk }
+  | .edit key c => { s with cont := s.cont.map (fun p => if p.1 == key then (p.1, { p.2 with content := c }) else p) }
+  | .setFile key o => { s with cont := setKey s.cont key o }
+
+def wrun {A} (ext : Name → Name) (ops : List (WOp A)) (s : WState A) : WState A := ops.foldl (wstep ext) s
+
+/-- `WannierData.from_npz(seed, files=keys)` -/
+def loadFrom {A} (ext : Name → Name) (seed : Name) (keys : List Name) (disk : List (Name × A)) : List (Name × A) :=
+  keys.filterMap (fun k => (dirGet disk (npzPath ext seed k)).map (fun a => (k, a)))
+
+/-- the seeded variant (NOT the code): a file is skipped when the cache says that the same object (identity) was
+    already written to that path and the path exists -/
+def saveCached {A} (ext : Name → Name) (seed : Name) (s : WState A) : WState A :=
+  s.cont.foldl (fun st p =>
+    let path := npzPath ext seed p.1
+    if (st.cache.find? (fun c => c.1 == p.1)).map (·.2) == some (path, p.2.ident) && (dirGet st.disk path).isSome
+    then st
+    else { st with disk := (path, p.2.content) :: st.disk, cache := (p.1, (path, p.2.ident)) :: st.cache }) s
+
 /-! ### exact model of `%17.12f` at `Rat` (driver only) -/
 
 def fmtF12 (x : Rat) : Rat := (roundHalfEven (x * pow10 12) : Rat) / pow10 12
@@ -263,6 +315,17 @@ def handle : List String → String
   | ["wdnames", key, ext] =>
     String.ofList (wdWriteName (fun _ => ext.toList) key.toList) ++ " " ++
       String.ofList (wdReadName (fun _ => ext.toList) key.toList)
+  | ["hist", ops] =>
+    -- ops: `s:<seed>` save, `e:<key>:<v>` in-place edit to content v, `f:<key>:<v>` new object with content v
+    let step : WState Nat → String → WState Nat := fun st o =>
+      match o.splitOn ":" with
+      | ["s", seed] => wstep id st (WOp.save seed.toList)
+      | ["e", key, v] => wstep id st (WOp.edit key.toList (v.toNat?.getD 0))
+      | ["f", key, v] => wstep id st (WOp.setFile key.toList ⟨1000 + v.toNat?.getD 0, v.toNat?.getD 0⟩)
+      | _ => st
+    let st := (ops.splitOn ";").foldl step { cont := [], disk := [], cache := [] }
+    let paths := (st.disk.map (·.1)).eraseDups
+    showListWith (fun pth => String.ofList pth ++ "=" ++ toString ((dirGet st.disk pth).getD 0)) "," paths
   | ["fmtf12", x] =>
     match parseRat? x with
     | some x => showRat (fmtF12 x)
